@@ -75,6 +75,12 @@ func (e *Engine) verifyFunc(name string) (*VC, error) {
 	fr := &Frame{fn: fn, params: params, binds: binds, con: con, entry: st.clone()}
 	fr.prepare()
 	fr.specVars = specVarsFor(fn, params, nil)
+	for i, fv := range fn.FreeVars {
+		fr.specVars[fv.Name()] = binds[i]
+		if deref(fv.Type()) != nil {
+			vc.assume("(> " + binds[i].S + " 0)") // captured variables are never nil
+		}
+	}
 	// global axioms
 	for _, ax := range e.axiomSrc {
 		env := &Env{vc: vc, st: st, vars: map[string]*Val{}}
@@ -121,6 +127,9 @@ func (e *Engine) verifyFunc(name string) (*VC, error) {
 		return vc, nil
 	}
 	vars := specVarsFor(fn, params, results)
+	for i, fv := range fn.FreeVars {
+		vars[fv.Name()] = binds[i]
+	}
 	penv := &Env{vc: vc, st: exit, old: fr.entry, vars: vars}
 	for _, c := range con.Ensures {
 		g, err := penv.evalBool(c.E)
